@@ -9,7 +9,8 @@ TWO_STAGE = True
 PURE = ["lineq", "lineq_zero", "lap_apply", "arith", "legal", "superstable", "greedy", "gon_game", "gon_strategy", "lap_queries", "config_queries", "pcfg_legal", "pcfg_superstable", "pcfg_queries"]
 MOVES = ["pcfg_lend", "pcfg_borrow", "pcfg_fire"]      # ordinary moves through a PERSISTENT configuration object: expected change is known
 PCFG = ["pcfg_legal", "pcfg_legal", "pcfg_superstable", "pcfg_superstable", "pcfg_queries", "superstable"] + MOVES
-INPLACE = ["ewd", "ewd_opt", "ewd_vis", "is_winnable", "q_reduction", "is_q_reduced", "rank", "rank_opt", "dhar_run"]
+INPLACE = ["ewd", "ewd_opt", "ewd_vis", "is_winnable", "q_reduction", "is_q_reduced", "rank", "rank_opt", "dhar_run", "ewd_other", "dhar_other"]
+# ewd_other / dhar_other: the graph argument is an equal multigraph built separately (not the divisor's own graph object): the divisor must stay on its graph
 def gen(rng, tier):
     out = []
     for _ in range(160 if tier == "quick" else 3000):
@@ -78,6 +79,8 @@ def impl(c):
             elif k == "rank": R.rank(d)
             elif k == "rank_opt": R.rank(d, optimized=True)
             elif k == "dhar_run": DharAlgorithm(g, d, names[v]).run()
+            elif k == "ewd_other": EWD(common.build_impl_graph(G, rng), d)
+            elif k == "dhar_other": DharAlgorithm(common.build_impl_graph(G, rng), d, names[v]).run()
         except Exception as ex: err = type(ex).__name__ + ":" + str(ex)[:80]
         steps.append({"k": k, "v": v, "before": bd, "after": dsnap(d), "e_same": be == dsnap(e), "g_same": g0 == gsnap(), "err": err})
     return steps
